@@ -68,12 +68,24 @@ func genLoadOption(rng *rand.Rand) refdev.LoadOption {
 		case 0:
 			return ""
 		case 1:
-			return []string{"Linux Boot Manager", "Windows Boot Manager", "UEFI: PXE IPv4", "\\EFI\\BOOT\\BOOTX64.EFI", "\\EFI\\systemd\\systemd-bootx64.efi"}[rng.Intn(5)]
+			return []string{"Linux Boot Manager", "Windows Boot Manager", "UEFI: PXE IPv4", "\\EFI\\BOOT\\BOOTX64.EFI", "\\EFI\\systemd\\systemd-bootx64.efi", "Démarrage réseau", "Größe", "\\EFI\\Señal\\bootx64.efi", "é"}[rng.Intn(9)]
 		}
 		n := 1 + rng.Intn(max)
 		var sb strings.Builder
+		// one string in four stays below U+0100 with characters above U+007F in it (Latin-1:
+		// every code unit has a zero high byte, yet it is not ASCII)
+		latin1 := rng.Intn(4) == 0
 		for i := 0; i < n; i++ {
 			var c rune
+			if latin1 {
+				if rng.Intn(3) == 0 {
+					c = rune(0xa0 + rng.Intn(0x60))
+				} else {
+					c = rune(0x20 + rng.Intn(0x5f))
+				}
+				sb.WriteRune(c)
+				continue
+			}
 			switch rng.Intn(5) {
 			case 0:
 				c = rune(0x10000 + rng.Intn(0xffff))
